@@ -4,10 +4,10 @@ package main
 
 import (
 	"fmt"
-	"os"
 	"go/constant"
 	"go/token"
 	"go/types"
+	"os"
 	"strings"
 
 	"golang.org/x/tools/go/ssa"
@@ -198,6 +198,9 @@ func (ex *Exec) callFunction(fn *ssa.Function, args []Value, env []Value, site s
 func (ex *Exec) invoke(fn *ssa.Function, args []Value, env []Value, site ssa.Instruction) Value {
 	if fn.Blocks == nil {
 		panic(ex.unsupported("no body for " + fn.String()))
+	}
+	if !ex.funcs[fn] && ex.eng.isRepoFn(fn) {
+		ex.funcs[fn] = true
 	}
 	if ex.eng.ifConvert && ex.eng.isPure(fn) && (anySymbolic(args) || hasSymStruct(args)) {
 		if r, ok := ex.evalPure(fn, args); ok {
